@@ -669,7 +669,9 @@ class DefaultModelInputConverter(ModelInputConverter):
     """
     if not self._converts_to_parameter:
       return None
-    elif not np.isfinite(value):
+    elif np.isnan(value):
+      # NaN marks a parameter that is missing from the trial. +-inf (e.g. from
+      # an overflowing log-scale inverse) is a value and is clipped below.
       return None
     elif self.parameter_config.type == pyvizier.ParameterType.DOUBLE:
       # Input parameter was DOUBLE. Output is also DOUBLE.
